@@ -2,7 +2,8 @@
 
 1-2 real proxies (each owned by its own client thread) open 1-4 streams (generator / list iterator; empty, short, long,
 raising at position k) on a real Daemon (both server types) and then run a plan of next / close / release / reconnect /
-advance steps.  The driver hands the steps to the owning client thread one at a time, so the plan order is the real order of
+drop (the network resets the proxy's connection between two calls) / advance steps; on the thread server a COMMTIMEOUT may
+additionally make the server close idle connections by itself.  The driver hands the steps to the owning client thread one at a time, so the plan order is the real order of
 client operations; everything the server does on its own (housekeeping on its timers, noticing a disconnect, running the
 one-way close_stream call in its own thread) interleaves freely with them.
 
@@ -17,7 +18,7 @@ import threading
 
 from ..world import World
 from .. import sched as S
-from .common import Server, SERIALIZERS
+from .common import Server, SERIALIZERS, break_conn
 from ..seams import config, CL, SV
 import Pyro5.api as api
 import Pyro5.errors as E
@@ -140,11 +141,14 @@ class StreamWorld(World):
     PROBES = ["item", "stop", "generator_exception", "closed_by_client", "lifetime_expired", "linger_expired",
               "reconnect_within_linger", "reconnect_after_linger", "terminated_error", "client_local_closed",
               "streaming_disabled", "two_proxies", "concurrent_streams", "multiplex", "thread", "housekeeping_observed",
-              "temp_proxy_close", "client_local_stop", "preempted", "raced"]
+              "temp_proxy_close", "client_local_stop", "preempted", "raced",
+              "connection_dropped", "continued_after_drop"]
     # also counted, but too schedule-dependent to demand: "fetch_before_old_disconnect", "expired_but_still_answers"
     RULE = ("plan = (server type, serializer, ITER_STREAMING on/off, ITER_STREAM_LIFETIME in {0,5,20}, ITER_STREAM_LINGER in "
             "{0,3,10}, 1-2 proxies, 1-4 stream sources (generator/list, 0-8 items, optional ValueError at position k), 6-26 ops "
-            "open/next/close/release/reconnect/advance{0.5..30 s} with optional settle after each, block/line pre-emption "
+            "open/next/close/release/reconnect/drop/advance{0.5..30 s} with optional settle after each (drop = the network resets "
+            "the proxy's connection while nothing is in flight; 15% of the thread-server plans also set COMMTIMEOUT=3 s so that the "
+            "server closes idle connections itself), block/line pre-emption "
             "probabilities; 22% of the plans end with the focus shape 'expiry race': a fresh stream is closed / fetched at the instant "
             "of the first housekeeping pass after its lifetime or linger ran out, with line pre-emption inside _housekeeping, "
             "_clientDisconnect, _streamResponse, get_next_stream_item, close_stream); distinct = distinct interleaving digest; non-trivial = at least one item was fetched and at least "
@@ -155,6 +159,10 @@ class StreamWorld(World):
                    "be gone after it; exactly at the limit either is accepted",
                    "next() after exhaustion or after a client-side close() is expected to raise StopIteration locally (DESIGN.md C10), "
                    "next() on a released proxy ConnectionClosedError locally",
+                   "a call over a connection that the network reset or the server closed before the request was read fails with a "
+                   "communication error without consuming an item and leaves the proxy released; the iterator stays usable: local "
+                   "ConnectionClosedError until the reconnect, then the stream continues (within linger) or answers with an error; a "
+                   "StopIteration the client produces by itself is accepted only when every item was delivered and the source would stop next",
                    "linger is counted from the moment the server notices the disconnect (clientDisconnect hook) and is cleared "
                    "only by the first fetch after the reconnect, as the code documents",
                    "when line pre-emption makes a fetch / close / disconnect / housekeeping step overlap another one, the streams "
@@ -209,8 +217,25 @@ class StreamWorld(World):
                 ops.append(st({"op": "release", "p": rng.randrange(nprox)}))
             elif r < 0.78:
                 ops.append(st({"op": "reconnect", "p": rng.randrange(nprox)}))
-            elif r < 0.88:
+            elif r < 0.86:
                 ops.append({"op": "advance", "dt": rng.choice(ADVANCES)})
+            elif r < 0.885:
+                ops.append(st({"op": "drop", "p": rng.randrange(nprox)}))
+            elif r < 0.93:
+                # focus shape: the network kills the connection of a stream's proxy; the client finds out inside its next
+                # next(), reconnects and goes on fetching
+                s = some_stream()
+                p = streams[s]["proxy"]
+                ops.append(st({"op": "drop", "p": p}))
+                if rng.random() < 0.6:
+                    ops.append({"op": "advance", "dt": rng.choice(ADVANCES)})
+                ops.append(st({"op": "next", "s": s}))
+                if rng.random() < 0.3:
+                    ops.append(st({"op": "next", "s": s}))
+                ops.append(st({"op": "reconnect", "p": p}))
+                ops.append(st({"op": "next", "s": s}))
+                if rng.random() < 0.5:
+                    ops.append(st({"op": "next", "s": s}))
             else:
                 # focus shape: drop the connection of a stream's proxy, wait, come back and fetch
                 s = some_stream()
@@ -229,7 +254,11 @@ class StreamWorld(World):
         lines = rng.random() < 0.35
         p_line = rng.choice([0.03, 0.1, 0.25]) if lines else 0.0
         p_block = rng.choice([0.0, 0.0, 0.2, 0.6])
-        if streaming and rng.random() < 0.22:
+        commtimeout = 0.0
+        race = streaming and rng.random() < 0.22
+        if servertype == "thread" and not race and rng.random() < 0.15:
+            commtimeout = 3.0       # the server itself drops connections that were idle for 3 s; the client finds out at its next call
+        if race:
             # focus shape "expiry race": a fresh stream reaches its lifetime (or its linger period after a disconnect) and the
             # client closes it / fetches from it at the very instant of the first housekeeping pass that would remove it
             # (thread server: the housekeeper ticks every POLL s from daemon start; multiplex: POLL s after the last request)
@@ -263,7 +292,8 @@ class StreamWorld(World):
             ops = ops + tail
         return {"servertype": servertype, "serializer": rng.choice(SERIALIZERS), "streaming": streaming,
                 "lifetime": lifetime, "linger": linger, "nproxies": nprox, "streams": streams, "ops": ops,
-                "lines": lines, "p_line": p_line, "p_block": p_block, "net": {"shuffle_select": rng.random() < 0.5}}
+                "commtimeout": commtimeout, "lines": lines, "p_line": p_line, "p_block": p_block,
+                "net": {"shuffle_select": rng.random() < 0.5}}
 
     def line_codes(self, plan):
         return _codes() if plan.get("lines") else ()
@@ -313,7 +343,9 @@ class StreamWorld(World):
         streams = plan["streams"]
         nprox = plan["nproxies"]
         life, linger = float(plan["lifetime"]), float(plan["linger"])
-        srv = Server(ctx, plan["servertype"], daemon_cls=ObsDaemon, polltimeout=POLL)
+        net = ctx.net
+        srv = Server(ctx, plan["servertype"], daemon_cls=ObsDaemon, commtimeout=float(plan.get("commtimeout") or 0.0),
+                     polltimeout=POLL)
         daemon = srv.daemon
         uri = srv.register(Src(), "src")
         boxes = [{"op": None, "done": True} for _ in range(nprox)]
@@ -323,7 +355,8 @@ class StreamWorld(World):
         def exec_op(proxy, p, op):
             kind, s = op["op"], op.get("s")
             rec = {"op": kind, "p": p, "s": s, "final": bool(op.get("final")), "inv": sched.stamp(), "t0": sched.now,
-                   "was_connected": proxy._pyroConnection is not None}
+                   "was_connected": proxy._pyroConnection is not None,
+                   "conn_before": _conn_of(proxy._pyroConnection)}
             if kind in ("next", "close"):
                 it = its[s]
                 rec["it_alive"] = it.proxy is not None
@@ -434,11 +467,32 @@ class StreamWorld(World):
                 elif s not in its:
                     continue            # op on a stream that was never opened: no-op
                 run_op(p, op)
+                if kind == "open" and s not in its and oplog and oplog[-1]["out"][0] in ("closed", "comm"):
+                    attempted.discard(s)    # the call never reached the server (dead connection): a later open may try again
             elif kind in ("release", "reconnect"):
                 p = op.get("p")
                 if not isinstance(p, int) or not 0 <= p < nprox:
                     continue
                 run_op(p, op)
+            elif kind == "drop":
+                # the network kills the proxy's connection between two client calls; nothing may be in flight on it
+                p = op.get("p")
+                if not isinstance(p, int) or not 0 <= p < nprox or proxies[p] is None:
+                    continue
+                idx = _conn_of(proxies[p]._pyroConnection)
+                if idx is None:
+                    continue
+                sched.settle(5.0)
+                csock, ssock = net.conns[idx]
+                if csock.closed or ssock.closed or csock.reset:
+                    continue
+                st0 = sched.stamp()
+                break_conn(csock, ssock)
+                oplog.append({"op": "drop", "p": p, "s": None, "conn": idx, "inv": st0, "ret": sched.stamp(), "out": ("ok",),
+                              "connected": True, "was_connected": True, "conn_before": idx, "final": False})
+                sched.ev("op", "drop", p, idx)
+                if op.get("settle"):
+                    sched.settle(5.0)
 
         # ---- end of run: close everything, look; release everything, wait for every expiry plus housekeeping, look again
         if not state["hung"]:
@@ -664,6 +718,8 @@ class StreamWorld(World):
                     if "linger" in tags:
                         ctx.probe("reconnect_within_linger")
                         flags["interesting"] += 1
+                        if sl.get("conn_error"):
+                            ctx.probe("continued_after_drop")
                     if any(a[0] == "live" and a[1] != conn for a in sl["S"]):
                         ctx.probe("fetch_before_old_disconnect")
                     if may_expired:
@@ -713,7 +769,18 @@ class StreamWorld(World):
                            % (out[1:], cur, st, normal))
             return bad(sl, "unexpected-outcome", out[0], "next() ended %r, model expects %r (state %s)" % (out, normal, st))
 
+        def silent_stop(sl, o):
+            """StopIteration answered by the client alone although the iterator never ended and was never closed"""
+            if sl["cursor"] < sl["nitems"] or sl["end"] == "exc":
+                bad(sl, "premature-stopiteration", "after-connection-error" if sl.get("conn_error") else "client-local",
+                    "next() raised StopIteration without asking the server after %d of %d items (source ends with %s)%s; server side "
+                    "model state %s" % (sl["cursor"], sl["nitems"], sl["end"],
+                                        ", after an earlier next() had failed with a connection error" if sl.get("conn_error") else "",
+                                        sorted(sl["S"] or [])))
+            # else: every item was delivered and the source would stop next: observably exact
+
         cur_op = None
+        dead = set()        # connections killed by the network (drop) or closed by the server (observed disconnect)
         for stamp, what, o in events:
             if what == "op-start":
                 cur_op = o
@@ -748,6 +815,7 @@ class StreamWorld(World):
                                 flags["interesting"] += 1
                             set_gone(sl, "closed by the client")
                 elif kind == "disc":
+                    dead.add(o[3])
                     for sl in slots:
                         if sl["S"] is None:
                             continue
@@ -818,9 +886,28 @@ class StreamWorld(World):
             # ---- op-end
             cur_op = None
             kind, out, p = o["op"], o["out"], o["p"]
-            if out[0] == "comm" or (out[0] == "closed" and kind != "next"):
-                ctx.violate("unexpected-outcome", "comm:" + kind, "%s failed with a communication error %r although no fault is injected" % (kind, out))
-                return
+            if kind == "drop":
+                dead.add(o["conn"])
+                continue
+            # the connection the call used was killed by the network / closed by the server (COMMTIMEOUT) before or during it
+            dead_now = o["conn_before"] is not None and o["conn_before"] in dead
+            commfail = out[0] == "comm" or (out[0] == "closed" and (kind != "next" or o["was_connected"]))
+            if commfail:
+                if not dead_now or o.get("fetches"):
+                    ctx.violate("unexpected-outcome", "comm:" + kind, "%s failed with a communication error %r although its connection "
+                                "was neither dropped nor closed by the server" % (kind, out))
+                    return
+                ctx.probe("connection_dropped")
+                if o["connected"]:
+                    ctx.violate("unexpected-outcome", "not-released", "%s failed with %r but the proxy kept its dead connection" % (kind, out))
+                    return
+                if kind == "next":
+                    sl = slots[o["s"]]
+                    if not sl["it_alive"] and not sl["broken"]:
+                        bad(sl, "missing-stopiteration", "after-end", "next() on an exhausted / closed iterator ended %r" % (out,))
+                    sl["conn_error"] = True     # no item was consumed: the request never reached the server
+                # open: the stream was never created; close (in sync): close_stream was never sent, the iterator stays usable
+                continue
             if kind == "open":
                 sl = slots[o["s"]]
                 if out[0] == "opened":
@@ -845,11 +932,15 @@ class StreamWorld(World):
                             ctx.probe("client_local_stop")
                         else:
                             bad(sl, "missing-stopiteration", "after-end", "next() on an exhausted / closed iterator ended %r" % (out,))
+                    elif out[0] == "stop":
+                        silent_stop(sl, o)
                     elif not o["was_connected"]:
                         if out[0] == "closed":
                             ctx.probe("client_local_closed")
                         else:
                             bad(sl, "unexpected-outcome", "released-proxy", "next() on a released proxy ended %r" % (out,))
+                    elif dead_now:
+                        bad(sl, "unexpected-outcome", "dead-connection", "next() over a dead connection ended %r, expected a communication error" % (out,))
                     else:
                         bad(sl, "unexpected-outcome", "no-fetch", "next() ended %r without asking the server" % (out,))
                 elif o["fetches"] and not sl["broken"]:
@@ -862,7 +953,7 @@ class StreamWorld(World):
                     sl["it_alive"] = False
             elif kind == "close":
                 sl = slots[o["s"]]
-                if sl["it_alive"] and o["was_connected"]:
+                if sl["it_alive"] and o["was_connected"] and not (dead_now and o["in_sync"]):
                     sl["closing"] = True
                     if not o["in_sync"]:
                         ctx.probe("temp_proxy_close")
